@@ -33,6 +33,7 @@ struct Inner {
     yield_sites: Option<HashSet<String>>,
     threads: BTreeMap<String, TInfo>,
     events: Vec<Ev>,
+    ref_read: BTreeMap<String, bool>,
 }
 
 pub struct Sched {
@@ -48,7 +49,7 @@ pub enum WaitError {
 impl Sched {
     pub fn new(yield_sites: Option<HashSet<String>>) -> Arc<Sched> {
         Arc::new(Sched {
-            inner: Mutex::new(Inner { controlled: true, yield_sites, threads: BTreeMap::new(), events: Vec::new() }),
+            inner: Mutex::new(Inner { controlled: true, yield_sites, threads: BTreeMap::new(), events: Vec::new(), ref_read: BTreeMap::new() }),
             cv: Condvar::new(),
         })
     }
@@ -127,6 +128,13 @@ impl Sink for Sched {
             if !sites.contains(site) {
                 return;
             }
+        }
+        // get_ref keeps the shard guard of the store alive while it records the access: no yield inside a guard
+        if site == "C_Get" {
+            guard.ref_read.insert(role.to_string(), arg == 1);
+        }
+        if site == "C_Access" && guard.ref_read.get(role).copied().unwrap_or(false) {
+            return;
         }
         guard.threads.insert(role.to_string(), TInfo { status: Status::Parked { site: site.to_string(), arg }, grant: false });
         self.cv.notify_all();
